@@ -24,7 +24,9 @@ META = dict(
                "mainline. File contents: a touching revision writes content unique to it; a non-touching revision takes "
                "the per-file head of its parents and must touch when there are several (no reverts, no identical "
                "changes on two sides), and the file is introduced once. Exhaustive histories have <= 6 revisions; "
-               "the thorough tier adds seeded random ones with 7-9. Trusted: BranchBuilder/commit, vcsgraph, TLC, the JSON bridge.",
+               "every run adds a seeded long history (40 revisions; thorough: 30, 40, 50) so that listings cross the "
+               "generator's batch boundaries (heads as tips, a handful of range ends, three files), the thorough tier "
+               "also seeded random ones with 7-9. Trusted: BranchBuilder/commit, vcsgraph, TLC, the JSON bridge.",
 )
 
 
@@ -139,23 +141,29 @@ def run(ctx):
     off = ctx.seed
     L = ("LawsHoldOnSpec",)
     if ctx.quick:
-        plan = [("<=4 revisions, ghost", hc.gen_cfg(1, 4, 2, 1, 4, off), L, True, True),
+        plan = [("<=4 revisions, ghost + one long history (40 revisions)", hc.gen_cfg(1, 4, 2, 1, 4, off), L, True, True,
+                 {"extra": [hc.long_graph(ctx.rng, 40)]}),
                 ("5 revisions", hc.gen_cfg(5, 5, 2, 0, 40, off), L, True, False)]
         remote_every, pack_every, nfiles = 30, 8, 3
     else:
-        plan = [("<=4 revisions, ghost", hc.gen_cfg(1, 4, 2, 1), L, True, True),
+        plan = [("<=4 revisions, ghost + long histories (30, 40, 50 revisions)", hc.gen_cfg(1, 4, 2, 1), L, True, True,
+                 {"extra": [hc.long_graph(ctx.rng, n) for n in (30, 40, 50)]}),
                 ("5 revisions", hc.gen_cfg(5, 5, 2, 0, 3, off), L, True, False),
                 ("5 revisions, ghost", hc.gen_cfg(5, 5, 2, 1, 16, off), L, True, False),
                 ("<=4 revisions, 3 parents, ghost", hc.gen_cfg(3, 4, 3, 1, 3, off), L, True, False),
                 ("6 revisions", hc.gen_cfg(6, 6, 2, 0, 80, off), L, True, False),
                 ("30 seeded random graphs, 7-9 revisions, <= 3 parents, ghost", hc.gen_cfg(7, 9, 3, 1), L, True, False,
-                 hc.random_graphs(ctx.rng, 30, 7, 9))]
+                 {"graphs": hc.random_graphs(ctx.rng, 30, 7, 9)})]
         remote_every, pack_every, nfiles = 25, 6, 8
     cases = hc.generate(ctx, "HistoryC25Gen", plan)
     groups = hc.group_by_graph(cases)
     jobs = [("2a", nfiles, g) for g in groups]
-    jobs += [("remote", 2, g) for g in groups[ctx.seed % remote_every::remote_every]]
-    jobs += [("pack", nfiles, g) for g in groups[(ctx.seed + 1) % pack_every::pack_every]]
+    long_groups = [g for g in groups if len(g[0]["c"]["par"]) > 12]
+    if not long_groups:
+        ctx.machinery("no long history among the exported cases")
+    short = [g for g in groups if len(g[0]["c"]["par"]) <= 12]
+    jobs += [("remote", 2, g) for g in short[ctx.seed % remote_every::remote_every]]
+    jobs += [("pack", nfiles, g) for g in short[(ctx.seed + 1) % pack_every::pack_every] + long_groups]
     before = len(ctx.collected)
     core.fork_map(ctx, _replay, jobs)
     rows = hc.collect_rows(ctx, before)
